@@ -104,7 +104,9 @@ def run(tier):
     nontrivial = set()
     # ---- (a) generated programs of the integer fragment
     for label, consts in JOBS[tier]:
-        reps = langpipe.generate(chk, label, consts, timeout=3000)
+        # delay times of zero samples are part of C01 (VM = WASM) although C02 says nothing about them
+        reps = langpipe.generate(chk, label, dict({"DelayTimes": '"withzero"'}, **consts),
+                                 timeout=3000)
         live = [(i, r) for i, r in enumerate(reps) if not r["oom"]]
         reqs = [langpipe.to_request(i, r) for i, r in live]
         res = vlib.run_harness("run", reqs, timeout_per_req=10)
@@ -116,10 +118,12 @@ def run(tier):
             if crash or out is None:
                 chk.violation(f"runtime process died: {crash}\n{req['src']}", case, key=key)
                 continue
-            for be in ("vm", "wasm"):
-                d = langpipe.compare_outputs(rep, out[be])
-                if d:
-                    chk.violation(f"{be} differs from the specification: {d}\n{req['src']}", dict(case, backend=be), key=key)
+            if not any(", 0)" in l and "delay(" in l for l in req["src"].split("\n")):
+                # (programs with a zero delay time are compared backend against backend only)
+                for be in ("vm", "wasm"):
+                    d = langpipe.compare_outputs(rep, out[be])
+                    if d:
+                        chk.violation(f"{be} differs from the specification: {d}\n{req['src']}", dict(case, backend=be), key=key)
             rid = f"{label}:{req['id']}"
             records.append({"id": rid, "a": langpipe.side(out["vm"]), "b": langpipe.side(out["wasm"]), "cmpwords": False})
             meta[rid] = (req["src"], case, key)
